@@ -35,7 +35,9 @@ MSGS = [['rpc', 'pause', 'rp'], ['rpc', 'play', None], ['rpc', 'kill', 'rk'], ['
         # (requests without a message text: the controllers' methods take the text as an optional argument)
         ['bcast', 'kill', None], ['bcast', 'pause', None], ['rpc', 'kill', None],
         # (... and with an empty one: a text like any other -- it replaces the status while paused, it is the text of the kill message)
-        ['rpc', 'pause', ''], ['rpc', 'kill', ''], ['bcast', 'pause', '']]
+        ['rpc', 'pause', ''], ['rpc', 'kill', ''], ['bcast', 'pause', ''],
+        # (broadcasts signed with the id of the process that receives them)
+        ['bcast', 'pause', 'sp', 'signed'], ['bcast', 'kill', 'sk', 'signed'], ['bcast', 'play', None, 'signed']]
 # what a communicator raises when it cannot deliver an announcement: the connection or channel is gone, the broker does not answer in time,
 # or the communicator object itself has been closed (at the shutdown of whatever runs the processes) while the process is still alive
 TOLERATED = {'closed': lambda: ConnectionClosed('closed'), 'channel': lambda: ChannelInvalidStateError('invalid'), 'timeout': lambda: kiwipy.TimeoutError('timeout'),
@@ -139,6 +141,13 @@ class CommRun(lifecycle.Run):
                     res = getattr(self.base, 'last_rpc_result', None)
                     if hasattr(res, 'cancel'):
                         entry['reply_dropped'] = bool(res.cancel())
+            elif len(act) > 3 and act[3] == 'signed':
+                # a broadcast that names its sender, and the sender is the process's own id (an application that lets every process sign
+                # what it sends, a parent asking "all of us" to stop): whom a broadcast comes from does not decide whether it is obeyed
+                msg = {'pause': pc.MessageBuilder.pause, 'play': pc.MessageBuilder.play, 'kill': pc.MessageBuilder.kill}[intent](text)
+                subject = {'pause': pc.Intent.PAUSE, 'play': pc.Intent.PLAY, 'kill': pc.Intent.KILL}[intent]
+                self.base.broadcast_send(msg, sender=proc.pid, subject=subject)
+                entry['ret'] = ['value', None]
             else:
                 {'pause': lambda: self.ctl.pause_all(text), 'play': self.ctl.play_all, 'kill': lambda: self.ctl.kill_all(text)}[intent]()
                 entry['ret'] = ['value', None]
